@@ -828,4 +828,261 @@ example :
     (loadAttr ((flush [g]).getD 0 default)).view = ⟨[97], 24, 4, [9, 0, 0, 0, 8, 0, 0, 0, 3, 0, 0, 0, 4, 0, 0, 0]⟩ := by
   decide
 
+/-! ## every successful setter marks the header modified, and a modified header is what `SDend` writes -/
+section dirty
+open H4.AttrSD
+
+/-- the calls of the SD interface that change attributes or descriptive metadata -/
+inductive SdSetter
+  | create (name : Bytes) (nt : Nat) (sizes : List Nat)
+  | attr (o : Obj) (name : Bytes) (nt : Nat) (count : Int) (val : Bytes)
+  | dataStrs (i : Nat) (l u fm c : Option Bytes)
+  | cal (i : Nat) (cal cale ioff ioffe nt : Bytes)
+  | range (i : Nat) (pmax pmin : Bytes)
+  | fill (i : Nat) (val : Bytes)
+  | dimName (slot : Nat) (name : Bytes)
+  | dimStrs (slot : Nat) (l u fm : Option Bytes)
+  | dimScale (slot count nt : Nat) (buf : Bytes)
+
+def SdSetter.run (f : AttrSD.File) : SdSetter → AttrSD.File × AttrSD.Out
+  | .create n nt sz => sdCreate f n nt sz
+  | .attr o n nt c v => sdSetAttr f o n nt c v
+  | .dataStrs i l u fm c => sdSetDataStrs f i l u fm c
+  | .cal i a b c d e => sdSetCal f i a b c d e
+  | .range i mx mn => sdSetRange f i mx mn
+  | .fill i v => sdSetFill f i v
+  | .dimName s n => sdSetDimName f s n
+  | .dimStrs s l u fm => sdSetDimStrs f s l u fm
+  | .dimScale s c nt b => sdSetDimScale f s c nt b
+
+/-- `SDsetdatastrs(id, NULL, NULL, NULL, NULL)` asks for nothing -/
+def SdSetter.asksNothing : SdSetter → Bool
+  | .dataStrs _ none none none none => true
+  | _ => false
+
+@[simp] theorem updVar_flags (f : AttrSD.File) (i : Nat) (g : Var → Var) :
+    (updVar f i g).dirty = f.dirty ∧ (updVar f i g).rdwr = f.rdwr ∧ (updVar f i g).isOpen = f.isOpen := by
+  unfold updVar; split <;> simp
+
+theorem getCoordVar_flags (f : AttrSD.File) (d : Dim) (slot nt : Nat) :
+    (getCoordVar f d slot nt).1.dirty = f.dirty ∧ (getCoordVar f d slot nt).1.rdwr = f.rdwr ∧
+    (getCoordVar f d slot nt).1.isOpen = f.isOpen := by
+  unfold getCoordVar
+  split
+  · dsimp only
+    split
+    · split
+      · split
+        · split <;> simp [updVar_flags]
+        · simp [updVar_flags]
+      · simp
+    · simp
+  · dsimp only
+    split <;> simp
+
+theorem apFromId_flags (f : AttrSD.File) (o : Obj) :
+    (apFromId f o).1.dirty = f.dirty ∧ (apFromId f o).1.rdwr = f.rdwr ∧ (apFromId f o).1.isOpen = f.isOpen := by
+  cases o with
+  | file => simp [apFromId]
+  | var i => simp only [apFromId]; split <;> simp
+  | dim s =>
+    simp only [apFromId]
+    split
+    · simp
+    · rename_i d _
+      have h := getCoordVar_flags f d s 0
+      split <;> simp_all
+
+
+/-- what a session must be in for `SDend` to write it -/
+def Written (f : AttrSD.File) : Prop := f.isOpen = true ∧ f.rdwr = true ∧ f.dirty = true
+
+theorem withVar_ok (f : AttrSD.File) (i : Nat) (k : Var → AttrSD.File × AttrSD.Out) (h : (withVar f i k).2 ≠ .fail) :
+    f.isOpen = true ∧ ∃ v, f.vars[i]? = some v ∧ withVar f i k = k v := by
+  unfold withVar at h ⊢
+  split at h
+  · simp at h
+  · rename_i ho
+    split at h
+    · simp at h
+    · rename_i v hv
+      simp only [Bool.not_eq_eq_eq_not, Bool.not_true] at ho
+      simp [hv, ho]
+
+theorem addFakeDims_flags (sz : List Nat) (f : AttrSD.File) :
+    (addFakeDims f sz).1.dirty = f.dirty ∧ (addFakeDims f sz).1.rdwr = f.rdwr ∧ (addFakeDims f sz).1.isOpen = f.isOpen := by
+  induction sz generalizing f with
+  | nil => simp [addFakeDims]
+  | cons a t ih =>
+    simp only [addFakeDims]
+    have := ih { f with slots := f.slots ++ [f.objs.length], objs := f.objs ++ [{ name := nFakeDim ++ dec f.slots.length, size := a }] }
+    simpa using this
+
+theorem create_marks (f : AttrSD.File) (n : Bytes) (nt : Nat) (sz : List Nat) (h : (sdCreate f n nt sz).2 ≠ .fail) :
+    Written (sdCreate f n nt sz).1 := by
+  generalize hr : sdCreate f n nt sz = r at h ⊢
+  unfold sdCreate at hr
+  have hfl := addFakeDims_flags sz f
+  repeat' split at hr
+  all_goals (subst hr; simp_all [Written])
+  all_goals (split at h <;> rename_i hc)
+  all_goals (first | (simp at h; done) | (simp only [if_neg hc]; simp_all))
+
+theorem setAttrsAt_flags (f : AttrSD.File) (loc : Loc) (l : AList) :
+    (setAttrsAt f loc l).dirty = f.dirty ∧ (setAttrsAt f loc l).rdwr = f.rdwr ∧ (setAttrsAt f loc l).isOpen = f.isOpen := by
+  cases loc <;> simp [setAttrsAt, updVar_flags]
+
+theorem setattr_marks (f : AttrSD.File) (o : Obj) (n : Bytes) (nt : Nat) (c : Int) (v : Bytes)
+    (h : (sdSetAttr f o n nt c v).2 ≠ .fail) : Written (sdSetAttr f o n nt c v).1 := by
+  generalize hr : sdSetAttr f o n nt c v = r at h ⊢
+  unfold sdSetAttr at hr
+  have hfl := apFromId_flags f o
+  repeat' split at hr
+  all_goals (subst hr; simp_all [Written, setAttrsAt_flags])
+
+theorem datastrs_marks (f : AttrSD.File) (i : Nat) (l u fm c : Option Bytes)
+    (hn : (l.isSome || u.isSome || fm.isSome || c.isSome) = true)
+    (h : (sdSetDataStrs f i l u fm c).2 ≠ .fail) : Written (sdSetDataStrs f i l u fm c).1 := by
+  unfold sdSetDataStrs at h ⊢
+  obtain ⟨ho, v, _, hk⟩ := withVar_ok _ _ _ h
+  rw [hk] at h ⊢
+  generalize hr : (if !f.rdwr then (f, AttrSD.Out.fail) else _ : AttrSD.File × AttrSD.Out) = r at h ⊢
+  repeat' split at hr
+  all_goals (subst hr; simp_all [Written])
+
+theorem cal_marks (f : AttrSD.File) (i : Nat) (a b c d e : Bytes)
+    (h : (sdSetCal f i a b c d e).2 ≠ .fail) : Written (sdSetCal f i a b c d e).1 := by
+  unfold sdSetCal at h ⊢
+  obtain ⟨ho, v, _, hk⟩ := withVar_ok _ _ _ h
+  rw [hk] at h ⊢
+  generalize hr : (if !f.rdwr then (f, AttrSD.Out.fail) else _ : AttrSD.File × AttrSD.Out) = r at h ⊢
+  repeat' split at hr
+  all_goals (subst hr; simp_all [Written])
+
+theorem range_marks (f : AttrSD.File) (i : Nat) (mx mn : Bytes)
+    (h : (sdSetRange f i mx mn).2 ≠ .fail) : Written (sdSetRange f i mx mn).1 := by
+  unfold sdSetRange at h ⊢
+  obtain ⟨ho, v, _, hk⟩ := withVar_ok _ _ _ h
+  rw [hk] at h ⊢
+  generalize hr : (if !f.rdwr then (f, AttrSD.Out.fail) else _ : AttrSD.File × AttrSD.Out) = r at h ⊢
+  repeat' split at hr
+  all_goals (subst hr; simp_all [Written])
+
+theorem fill_marks (f : AttrSD.File) (i : Nat) (fv : Bytes)
+    (h : (sdSetFill f i fv).2 ≠ .fail) : Written (sdSetFill f i fv).1 := by
+  unfold sdSetFill at h ⊢
+  obtain ⟨ho, v, _, hk⟩ := withVar_ok _ _ _ h
+  rw [hk] at h ⊢
+  generalize hr : (if !f.rdwr then (f, AttrSD.Out.fail) else _ : AttrSD.File × AttrSD.Out) = r at h ⊢
+  repeat' split at hr
+  all_goals (subst hr; simp_all [Written])
+
+theorem dimname_marks (f : AttrSD.File) (s : Nat) (n : Bytes)
+    (h : (sdSetDimName f s n).2 ≠ .fail) : Written (sdSetDimName f s n).1 := by
+  generalize hr : sdSetDimName f s n = r at h ⊢
+  unfold sdSetDimName at hr
+  repeat' split at hr
+  all_goals (subst hr; simp_all [Written])
+  all_goals (split at h <;> (try split at h) <;> simp_all)
+
+theorem dimstrs_marks (f : AttrSD.File) (s : Nat) (l u fm : Option Bytes)
+    (h : (sdSetDimStrs f s l u fm).2 ≠ .fail) : Written (sdSetDimStrs f s l u fm).1 := by
+  generalize hr : sdSetDimStrs f s l u fm = r at h ⊢
+  unfold sdSetDimStrs at hr
+  split at hr
+  · subst hr; simp at h
+  split at hr
+  · subst hr; simp at h
+  rename_i d _
+  have hfl := getCoordVar_flags f d s 0
+  repeat' split at hr
+  all_goals (subst hr; simp_all [Written])
+
+theorem dimscale_marks (f : AttrSD.File) (s c nt : Nat) (b : Bytes)
+    (h : (sdSetDimScale f s c nt b).2 ≠ .fail) : Written (sdSetDimScale f s c nt b).1 := by
+  generalize hr : sdSetDimScale f s c nt b = r at h ⊢
+  unfold sdSetDimScale at hr
+  split at hr
+  · subst hr; simp at h
+  split at hr
+  · subst hr; simp at h
+  rename_i d _
+  have hfl := getCoordVar_flags f d s nt
+  repeat' split at hr
+  all_goals (try dsimp only at hr)
+  all_goals (repeat' split at hr)
+  all_goals (subst hr; simp_all [Written, updVar_flags])
+
+/-- **sd_setter_marks_header_modified**: every call of the SD interface that sets an attribute or a piece of descriptive
+    metadata (`SDcreate`, `SDsetattr` on a file / dataset / dimension, `SDsetdatastrs`, `SDsetcal`, `SDsetrange`,
+    `SDsetfillvalue`, `SDsetdimname`, `SDsetdimstrs`, `SDsetdimscale`), on ANY state and with ANY arguments, when it does not
+    FAIL leaves the file open, writable and with NC_HDIRTY set - by itself, whatever else the session does or does not do.
+    (`SDsetdatastrs` with four NULL pointers asks for nothing and is the one exception.) -/
+theorem sd_setter_marks_header_modified (f : AttrSD.File) (s : SdSetter) (hn : s.asksNothing = false)
+    (h : (s.run f).2 ≠ .fail) : Written (s.run f).1 := by
+  cases s with
+  | create n nt sz => exact create_marks f n nt sz h
+  | attr o n nt c v => exact setattr_marks f o n nt c v h
+  | dataStrs i l u fm c =>
+    refine datastrs_marks f i l u fm c ?_ h
+    cases l <;> cases u <;> cases fm <;> cases c <;> simp_all [SdSetter.asksNothing]
+  | cal i a b c d e => exact cal_marks f i a b c d e h
+  | range i mx mn => exact range_marks f i mx mn h
+  | fill i v => exact fill_marks f i v h
+  | dimName s n => exact dimname_marks f s n h
+  | dimStrs s l u fm => exact dimstrs_marks f s l u fm h
+  | dimScale s c nt b => exact dimscale_marks f s c nt b h
+
+/-- `SDend` writes the state of a session that is open, writable and marked ... -/
+theorem close_written (f : AttrSD.File) (d : Disk) (hw : Written f) (hs : save f = some d) :
+    close f = ({ disk := d }, .ok) := by
+  obtain ⟨ho, hr, hd⟩ := hw
+  simp [close, ho, hr, hd, hs]
+
+/-- ... and ONLY such a state: without the mark the file stays as it was, whatever the session holds in memory.
+    This is why the previous theorem is needed for "everything survives close and reopen". -/
+theorem close_unmarked (f : AttrSD.File) (ho : f.isOpen = true) (hd : f.dirty = false) :
+    close f = ({ disk := f.disk }, .ok) := by
+  simp [close, ho, hd]
+
+/-- **sd_single_setter_survives_reopen**: a session may consist of ONE successful setter call and `SDend`; the next
+    `SDstart` then shows the state the session had after that call, in the sense of `sd_attrs_survive_reopen`: same
+    variables in the same order with their number types (for a coordinate variable: the type of the dimension scale),
+    kinds, references, scale data, and every storable attribute list. -/
+theorem sd_single_setter_survives_reopen (f : AttrSD.File) (s : SdSetter) (hn : s.asksNothing = false)
+    (h : (s.run f).2 ≠ .fail) (d : Disk) (hs : save (s.run f).1 = some d) :
+    (close (s.run f).1).2 = .ok ∧
+    (openF (close (s.run f).1).1 true).vars.length = (s.run f).1.vars.length ∧
+    (∀ (i : Nat) (v : Var), (s.run f).1.vars[i]? = some v → ∃ v' : Var, (openF (close (s.run f).1).1 true).vars[i]? = some v' ∧
+        (v.vtype ≠ IS_CRDVAR → v'.name = v.name) ∧ v'.hdftype = v.hdftype ∧ v'.vtype = v.vtype ∧ v'.ref = v.ref ∧
+        v'.hasData = v.hasData ∧ v'.scale = v.scale ∧ ((∀ a ∈ v.attrs, Storable a = true) → v'.attrs = v.attrs)) ∧
+    ((∀ a ∈ (s.run f).1.gattrs, Storable a = true) → (openF (close (s.run f).1).1 true).gattrs = (s.run f).1.gattrs) := by
+  have hc := close_written _ d (sd_setter_marks_header_modified f s hn h) hs
+  have ho : openF (close (s.run f).1).1 true = openF { (s.run f).1 with disk := d } true := by
+    rw [hc]; simp [openF]
+  rw [ho, hc]
+  exact ⟨rfl, sd_attrs_survive_reopen (s.run f).1 d hs⟩
+
+/-- a file as a first session left it: dataset "v" (int16, 2 values) on dimension "x", whose scale is {1, 2} as int16 -/
+def scaleWitness : AttrSD.File :=
+  let d : Disk := { dims := [⟨[120], 2⟩]
+                    vars := [⟨[118], 22, [0], [], IS_SDSVAR, 2, false, []⟩, ⟨[120], 22, [0], [], IS_CRDVAR, 3, true, [0, 1, 0, 2]⟩] }
+  openF { disk := d } true
+
+/-- the only call of the second session: the scale is re-set as uint16 {40000, 60000} (same element size) -/
+def scaleRetype : SdSetter := .dimScale 0 2 23 [0x9c, 0x40, 0xea, 0x60]
+
+example : scaleRetype.asksNothing = false ∧ (scaleRetype.run scaleWitness).2 ≠ .fail ∧
+    (save (scaleRetype.run scaleWitness).1).isSome = true := by decide
+
+/-- after `SDend` and `SDstart` the scale has the new type and the new values ... -/
+example : ((openF (close (scaleRetype.run scaleWitness).1).1 false).vars.map fun v => (v.hdftype, v.scale))
+    = [(22, []), (23, [0x9c, 0x40, 0xea, 0x60])] := by decide
+
+/-- ... whereas the same session WITHOUT the mark on the header would leave the old type on disk (in the C the new bytes
+    are in the data element already: 40000 would be read back as int16 -25536) -/
+example : ((openF (close { (scaleRetype.run scaleWitness).1 with dirty := false }).1 false).vars.map (·.hdftype)) = [22, 22] := by
+  decide
+
+end dirty
 end H4.Props.C10
